@@ -102,12 +102,17 @@ def oracle(line: str, obs: Obs):
                     realms[r].append(ent)
                 ent[1].append(pi)
     conn_peer, state = {}, {}
+    first_ce = {}            # connection -> Origin-Host of the first CER read on it (who the connection belongs to)
     meta = getattr(oracle, "meta", {})
     for ev, lines in obs.blocks:
         t = ev.split(" ")
+        if t[0] == "anon":
+            first_ce[f"c{t[1]}"] = "ghost.x"
         if t[0] == "rx" and len(t) == 3:
             c = f"c{t[1]}"
             m = parse_msg(t[2])
+            if m["R"] and m["cmd"] == 257 and c not in first_ce and "oh" in m["keys"]:
+                first_ce[c] = m["keys"]["oh"]
             if m["R"] and m["cmd"] not in (257, 280, 282) and state.get(c) in ("READY", "WAITDWA") and not m["T"]:
                 outs = [kv(l) for l in lines if l.startswith("OUT " + c + " ")]
                 apps = [l for l in lines if l.startswith("APP ") and " REQ " in l]
@@ -152,6 +157,8 @@ def oracle(line: str, obs: Obs):
                 # the configured peer of a connection: the name it was dialled under, else the identity it announced
                 # (identities are host names: compared without regard to case)
                 nm = d["name"] if d["name"] != "-" else d["ident"]
+                if d["dir"] == "R" and c in first_ce:
+                    nm = first_ce[c]        # an accepted connection belongs to the peer that opened it with its CER
                 conn_peer[c] = next((p for p in peers if p.lower() == nm.lower()), nm)
     return fails
 
@@ -230,6 +237,15 @@ def scenarios(rng: random.Random, tier: str):
         pred = dial + " | start ok,ok,ok | " + " | ".join(
             f"rx {k} " + nodegen.cea(2001, spell(f"peer{k + 1}.x"), 2001 + 1000 * k, 268435464 + k, auth="4") for k in range(3))
         out.append(pred + " | " + " | ".join(req(k, f"peer{k + 1}.x", "realm.local") for k in range(3)))
+    # base-protocol traffic in between: a further CER on an established connection, naming another configured peer, does
+    # not change whose requests these are
+    for other in ("peer2.x", "peer3.x"):
+        hbh[0] += 1
+        again = f"rx 0 " + nodegen.cer(other, "4+3", hbh[0], 8000 + hbh[0], extra=",acct=3")
+        hbh[0] += 1
+        out.append(CFG + " | start | acc | " + handshake(0, "peer1.x") + " | " + req(0, "peer1.x", "realm.local", 4) + " | " + again +
+                   " | rx 0 " + nodegen.dwr(hbh[0], 9000 + hbh[0]) + " | " +
+                   " | ".join(req(0, "peer1.x", r, a) for r in ("realm.local", "other.realm") for a in (4, 3)))
     # "unknown" peers of the quantifier: a ready connection that resolves to none of the configured peers gets the first
     # application with the request's id (no history of the node produces such a connection; the scenario makes one)
     for conn in (0, 1, 2):
